@@ -21,7 +21,7 @@ RULE = ("A: random JSON objects over str/int/float/bool/null/list/object to dept
 ASSUMPTIONS = ["fault -> code table follows the registrations in hed/errors/error_messages.py",
                "documents whose top level is not a JSON object are outside the property (BIDS sidecars are objects); "
                "they are generated, counted and not judged"]
-MIN_MONITOR_EVALS = {"total-no-exception": 3000, "valid-no-error": 300, "fault-has-code": 1500}
+MIN_MONITOR_EVALS = {"total-no-exception": 3000, "valid-no-error": 300, "fault-has-code": 1500, "validator-reused": 200}
 FAULTS = ["category-value-not-string", "hed-entry-number", "hed-entry-list", "hed-entry-null", "hed-string-no-pound",
           "two-pounds-in-value", "pound-in-category", "empty-map", "empty-string", "column-named-HED",
           "nested-HED-key", "na-category-key", "unbalanced-brace", "nested-brace", "unknown-ref", "self-ref", "chained-ref",
@@ -98,6 +98,9 @@ def check_total(case, rec):
         rec.violation("sidecar validation did not return a list of issues", case)
 
 
+_previous_valid = {}
+
+
 def check_expect(case, rec):
     try:
         issues = validate_doc(case["doc"], case["version"])
@@ -128,6 +131,21 @@ def check_expect(case, rec):
                               dict(case, observed=runs, extras_len=len(extras)))
         except Exception as ex:  # noqa
             rec.violation(f"validating with extra definitions raised {type(ex).__name__}", case)
+        # one validator object used for the sidecar validated before this one and then for this one
+        prev = case.get("before") or _previous_valid.get(case["version"])
+        _previous_valid[case["version"]] = case["doc"]
+        if prev is not None:
+            rec.mon("validator-reused")
+            try:
+                from hed.validator.sidecar_validator import SidecarValidator
+                sv = SidecarValidator(schema)
+                sv.validate(Sidecar(_io.StringIO(_json.dumps(prev))))
+                again = sorted({i["code"] for i in sv.validate(Sidecar(_io.StringIO(_json.dumps(case["doc"])))) if i["severity"] == 1})
+                if again != errs:
+                    rec.violation("a sidecar's verdict depends on the sidecar its validator saw before",
+                                  dict(case, before=prev, observed=again))
+            except Exception as ex:  # noqa
+                rec.violation(f"a validator used for a second sidecar raised {type(ex).__name__}", dict(case, before=prev))
     else:
         rec.mon("fault-has-code")
         rec.count("fault", case["fault"])
